@@ -320,6 +320,7 @@ def run_batch(exe, batch, methods, seed, tag, options=None):
                 s.change(ua, ch, version=ver)
                 ver += 1
             seen = []
+            client_text = cur
             # document B is opened with the text the SERVER holds for A (C08 is about their equality; this stage is about the
             # features), so an edit the two sides read differently cannot masquerade as a feature defect
             try:
@@ -342,6 +343,8 @@ def run_batch(exe, batch, methods, seed, tag, options=None):
                             s.request_async("textDocument/" + m, params_for(ub, m, pos, options))))
             rows, dead = [], False
             if want_diag:
+                # C01 speaks about "the resulting text": the text the client holds after its edits
+                rows.append(("$/verif/text", None, canon(cur, ua), canon(client_text, ub)))
                 rows.append(("publishDiagnostics", None, canon(diag_a, ua), canon(diag_b, ub)))
             for (m, pos), (ia, ib) in zip(reqs, ids):
                 try:
